@@ -84,20 +84,30 @@ type visState struct {
 	all    []*visListener          // every listener ever made
 	conns  map[int]*visPending
 	events chan [2]string // (lid, sid) received on any sidCh ever made
+	// granted NAT-hole visits whose handler is still waiting out NatHoleTimeout: sid -> handler done
+	pendingNat map[string]chan struct{}
 }
 
 var vst *visState
 
 func visResetA() {
-	nathole.NatHoleTimeout = 0
+	// one second (the unit of NatHoleTimeout): since the notify send is bounded by this timeout a value
+	// of 0 would make the send race with an already expired timer
+	nathole.NatHoleTimeout = 1
 	if vst != nil {
 		for _, p := range vst.conns {
 			p.peer.Close()
 		}
+		for _, d := range vst.pendingNat {
+			select {
+			case <-d:
+			case <-time.After(3 * time.Second):
+			}
+		}
 	}
 	c, _ := nathole.NewController(time.Hour)
 	vst = &visState{vm: visitor.NewManager(), nc: c, byName: map[string]*visListener{}, conns: map[int]*visPending{},
-		events: make(chan [2]string, 64)}
+		events: make(chan [2]string, 64), pendingNat: map[string]chan struct{}{}}
 }
 
 func visErrClass(e string) string {
@@ -301,19 +311,16 @@ func visExec(tok []string) string {
 			defer close(done)
 			st.nc.HandleVisitor(m, t, unhx(tok[4]))
 		}()
+		evs := []string{}
 		select {
 		case <-done:
-		case <-time.After(3 * time.Second):
+		case ev := <-st.events:
+			// the sid reached an owner loop: the visit is granted; its handler now waits up to
+			// NatHoleTimeout for the owner's NatHoleClient message and then removes the session
+			evs = append(evs, ev[0])
+			st.pendingNat[ev[1]] = done
+		case <-time.After(4 * time.Second):
 			return "hang"
-		}
-		evs := []string{}
-		if t.count() == 0 {
-			// no reply to the visitor: the sid went to an owner loop; wait for that loop to report it
-			select {
-			case ev := <-st.events:
-				evs = append(evs, ev[0])
-			case <-time.After(2 * time.Second):
-			}
 		}
 	collect:
 		for {
@@ -324,7 +331,19 @@ func visExec(tok []string) string {
 				break collect
 			}
 		}
-		left := len(st.nc.VerifSessions())
+		left := 0
+		for _, sid := range st.nc.VerifSessions() {
+			if d, ok := st.pendingNat[sid]; ok {
+				select {
+				case <-d:
+					delete(st.pendingNat, sid)
+					left++ // handler finished but the session is still stored
+				default: // in flight, legitimately stored
+				}
+				continue
+			}
+			left++
+		}
 		t.mu.Lock()
 		msgs := append([]*msg.NatHoleResp{}, t.msgs...)
 		t.mu.Unlock()
